@@ -31,8 +31,9 @@ VARIABLES cx,      \* [st, hist, evc, store]: state.State + what validation read
           mk,      \* the choices Make was called with (needed by MadeBlocksValid's exemption)
           trail,   \* the history as a sequence of choices (what the Go harness replays)
           dev,     \* deviations used
+          recov,   \* the next state each recovery variant of the last Apply computes (ApplyVia)
           act
-vars == <<cx, phase, blk, pblk, mk, trail, dev, act>>
+vars == <<cx, phase, blk, pblk, mk, trail, dev, recov, act>>
 
 \* ------------------------------------------------------------------ genesis alphabets
 V(id, p) == [id |-> id, power |-> p]
@@ -57,6 +58,7 @@ InitCx(g) ==
 Init ==
   /\ \E g \in GenesisChoices :
         /\ cx = InitCx(g)
+        /\ recov = [v \in ApplyVariants |-> [ok |-> TRUE, st |-> InitCx(g).st]]
         /\ trail = <<[t |-> "genesis", g |-> g]>>
   /\ phase = "idle" /\ blk = NoBlock /\ pblk = NoBlock /\ mk = NoMk /\ dev = 0
   /\ act = [name |-> "Init", op |-> NoOp]
@@ -125,7 +127,7 @@ Make ==
         /\ trail' = Append(trail, [t |-> "make", txs |-> c.txs, ev |-> c.ev, proposer |-> c.proposer, votes |-> c.votes])
   /\ phase' = "made" /\ pblk' = NoBlock
   /\ act' = [name |-> "Make", op |-> NoOp]
-  /\ UNCHANGED cx
+  /\ UNCHANGED <<cx, recov>>
 
 \* ------------------------------------------------------------------ Perturb
 \* (perturbed blocks are leaves of the graph: the node goes on from the made block)
@@ -135,7 +137,7 @@ DoPerturb ==
   /\ \E op \in AllOps(cx, blk) :
         /\ pblk' = Perturb(cx, blk, op)
         /\ act' = [name |-> "Perturb", op |-> op]
-  /\ UNCHANGED <<cx, phase, blk, mk, trail, dev>>
+  /\ UNCHANGED <<cx, phase, blk, mk, trail, dev, recov>>
 
 \* ------------------------------------------------------------------ Apply
 ResultsFor(txs, rc) == [i \in DOMAIN txs |-> [code |-> IF rc = "fail1" /\ i = 1 THEN 1 ELSE 0,
@@ -183,6 +185,7 @@ Apply ==
             r    == NextState(cx.st, blk, BlockIDOf(blk), resp)
             ok   == valid /\ r.ok IN
         /\ dev' = dev + ch.cost
+        /\ recov' = [v \in ApplyVariants |-> ApplyVia(cx.st, blk, BlockIDOf(blk), resp, v)]
         /\ trail' = Append(trail, [t |-> "apply", valUpdates |-> c.valUpdates, pu |-> c.pu, rc |-> c.rc, appHash |-> c.appHash])
         /\ IF ok
            THEN /\ cx' = [st |-> r.st,
@@ -261,6 +264,13 @@ MedianIsExactWeightedMedian ==
   (phase = "made" /\ act.name = "Make" /\ blk.height > cx.st.initialHeight) =>
      IsExactWeightedMedian(MedianTime(blk.lastCommit, cx.st.lastVals), TrueMedianEntries(blk.lastCommit, cx.st.lastVals))
 
+\* ---- the same block on the same state gives the same next state whichever way the node applies it:
+\* live, or replayed from the responses it stored before a crash (either store mode)
+NextStateSame ==
+  (act.name = "Apply" /\ phase = "idle") =>
+     /\ recov["live"].ok /\ recov["live"].st = cx.st
+     /\ \A v1, v2 \in ApplyVariants : recov[v1] = recov[v2]
+
 \* ---- the transition function: delays and bookkeeping
 ValsAt(h) == IF h \in DOMAIN cx.hist THEN cx.hist[h].vals
              ELSE IF h = NextHeight(cx.st) THEN cx.st.vals ELSE cx.st.nextVals
@@ -313,5 +323,5 @@ EmitOps == (phase = "made" /\ act.name = "Make") =>
 EmitTable == act.name = "Init" =>
               PrintT("TABLE " \o ToString([genesis |-> GenesisTable, params |-> DefaultParams, sizes |-> SizeCases]))
 
-ChainView == <<cx, phase, blk, pblk, mk, dev, act.name, act.op>>
+ChainView == <<cx, phase, blk, pblk, mk, dev, recov, act.name, act.op>>
 =============================================================================
